@@ -17,8 +17,18 @@ import (
 	"sync"
 	"time"
 
+	"io"
+
+	"github.com/HobbyOSs/gosk/internal/ast"
+	"github.com/HobbyOSs/gosk/internal/codegen"
+	"github.com/HobbyOSs/gosk/internal/filefmt"
 	"github.com/HobbyOSs/gosk/internal/frontend"
 	"github.com/HobbyOSs/gosk/internal/gen"
+	ocode_client "github.com/HobbyOSs/gosk/internal/ocode_client"
+	"github.com/HobbyOSs/gosk/internal/pass1"
+	"github.com/HobbyOSs/gosk/internal/pass2"
+	"github.com/HobbyOSs/gosk/pkg/asmdb"
+	"github.com/HobbyOSs/gosk/pkg/cpu"
 )
 
 // Result is the observable outcome of one assembly.
@@ -341,4 +351,83 @@ func FreshProcessBytes(src string) ([]byte, bool) {
 	cliCache[src] = b
 	cliMu.Unlock()
 	return b, b != nil
+}
+
+// ---------------------------------------------------------------------------
+// exit-free replica of frontend.Exec (context set-up, pass 1, pass 2 with the
+// branch-widening loop, format switch) for C13's mutation/fuzz targets, where
+// arbitrary text may reach the paths on which the real Exec calls os.Exit.
+// Anything found with it is re-run through the real binary before it is reported.
+
+// NoExitResult: Err is a diagnosed failure (what Exec would turn into an exit), Panic a crash.
+type NoExitResult struct {
+	ParseErr string
+	Err      string
+	Panic    string
+	Out      []byte
+}
+
+func AssembleNoExit(src string) (res NoExitResult) {
+	var buf bytes.Buffer
+	oldFlags := log.Flags()
+	log.SetFlags(0)
+	log.SetOutput(io.Discard)
+	_ = buf
+	defer func() {
+		log.SetOutput(os.Stderr)
+		log.SetFlags(oldFlags)
+	}()
+	defer func() {
+		if p := recover(); p != nil {
+			res.Panic = fmt.Sprintf("%v\n%s", p, firstFrames(debug.Stack()))
+		}
+	}()
+	pt, err := gen.Parse("", []byte(src), gen.Entrypoint("Program"))
+	if err != nil {
+		res.ParseErr = err.Error()
+		return res
+	}
+	prog, ok := pt.(ast.Prog)
+	if !ok {
+		res.Err = "not a program"
+		return res
+	}
+	near := map[int]bool{}
+	for iter := 0; ; iter++ {
+		ctx := &codegen.CodeGenContext{BitMode: cpu.MODE_16BIT, SymTable: make(map[string]int32), GlobalSymbolList: []string{}, MachineCode: []byte{}}
+		client, _ := ocode_client.NewCodegenClient(ctx)
+		p1 := &pass1.Pass1{LOC: 0, BitMode: cpu.MODE_16BIT, SymTable: ctx.SymTable, GlobalSymbolList: ctx.GlobalSymbolList, ExternSymbolList: []string{},
+			Client: client, AsmDB: asmdb.NewInstructionDB(), MacroMap: make(map[string]ast.Exp)}
+		if len(near) > 0 {
+			p1.NearBranches = near
+		}
+		p1.Eval(prog, ctx)
+		p2 := &pass2.Pass2{BitMode: p1.BitMode, OutputFormat: p1.OutputFormat, SourceFileName: p1.SourceFileName, CurrentSection: p1.CurrentSection,
+			SymTable: p1.SymTable, GlobalSymbolList: ctx.GlobalSymbolList, ExternSymbolList: p1.ExternSymbolList, Client: p1.Client, DollarPos: p1.DollarPosition}
+		if err := p2.Eval(prog); err != nil {
+			res.Err = err.Error()
+			return res
+		}
+		if len(ctx.TooFarBranches) == 0 {
+			if p2.OutputFormat == "WCOFF" {
+				path := nextPath()
+				if err := (&filefmt.CoffFormat{}).Write(ctx, path); err != nil {
+					res.Err = err.Error()
+				} else {
+					res.Out, _ = os.ReadFile(path)
+				}
+				os.Remove(path)
+			} else {
+				res.Out = ctx.MachineCode
+			}
+			return res
+		}
+		for _, id := range ctx.TooFarBranches {
+			near[id] = true
+		}
+		if iter > 200000 {
+			res.Err = "branch widening did not converge"
+			return res
+		}
+	}
 }
